@@ -99,6 +99,63 @@ func caseTags(args []vlib.Sx) (*res, error) {
 	return r, nil
 }
 
+// caseOtfPair: one (script, language) pair through otfToBCP47 and bcp47ToOtf;
+// the observation contains the string of the tag's x extension as x/text
+// returns it, so that the model's assumption about x/text is compared too.
+func caseOtfPair(args []vlib.Sx) (*res, error) {
+	if len(args) != 2 {
+		return nil, fmt.Errorf("otfpair: want 2 arguments")
+	}
+	sb, err := vlib.AsBytes(args[0])
+	if err != nil {
+		return nil, err
+	}
+	lb, err := vlib.AsBytes(args[1])
+	if err != nil {
+		return nil, err
+	}
+	script, lang := string(sb), string(lb)
+	r := &res{labels: []string{"kind:otfpair"}, nt: true}
+	_, knownS := gtab.VerifC14ScriptTable()[script]
+	_, knownL := gtab.VerifC14LangTable()[lang]
+	inTables := knownS && (knownL || lang == "")
+	var tag language.Tag
+	var terr error
+	if p, msg := guard(func() { tag, terr = gtab.VerifC14OtfToBCP47(script, lang) }); p {
+		r.impl = "panic"
+		r.failf("c14-otf-tag-panic", "otfToBCP47(%q, %q) panics: %s", script, lang, msg)
+		return r, nil
+	}
+	if terr != nil {
+		r.impl = "err"
+		r.labels = append(r.labels, "otfpair:err")
+		if inTables {
+			r.failf("c14-otf-tag-roundtrip", "otfToBCP47(%q, %q) fails: %v", script, lang, terr)
+		}
+		return r, nil
+	}
+	var s2, l2 string
+	if p, msg := guard(func() { s2, l2, terr = gtab.VerifC14BCP47ToOtf(tag) }); p {
+		r.impl = "panic"
+		r.failf("c14-otf-tag-panic", "bcp47ToOtf(%v) panics: %s", tag, msg)
+		return r, nil
+	}
+	if terr != nil {
+		r.impl = "err"
+		if inTables {
+			r.failf("c14-otf-tag-roundtrip", "bcp47ToOtf(%v) fails: %v", tag, terr)
+		}
+		return r, nil
+	}
+	ext, _ := tag.Extension('x')
+	r.impl = vlib.Str(vlib.L(vlib.Atom("ok"), vlib.Hex([]byte(ext.String())), vlib.Hex([]byte(s2)), vlib.Hex([]byte(l2))))
+	r.labels = append(r.labels, "otfpair:ok")
+	if s2 != script || l2 != lang {
+		r.failf("c14-otf-tag-roundtrip", "(%q, %q) -> %v -> (%q, %q)", script, lang, tag, s2, l2)
+	}
+	return r, nil
+}
+
 // caseChoose: name language tags parse, and Tables.Choose finds the table of
 // exactly the requested language among two.
 func caseChoose(args []vlib.Sx) (*res, error) {
@@ -208,6 +265,33 @@ func genTags(g *gen, r *vlib.Rand) {
 	}
 	for _, s := range otfScripts {
 		g.add("!" + vlib.Line(vlib.Atom("tags"), vlib.Hex([]byte(s))))
+	}
+	// pairs compared with the model: all of them in the thorough tier
+	pair := func(sc, la string) {
+		g.add(vlib.Line(vlib.Atom("otfpair"), vlib.Hex([]byte(sc)), vlib.Hex([]byte(la))))
+	}
+	if g.tier == "thorough" {
+		for _, sc := range otfScripts {
+			for _, la := range otfLangs {
+				pair(sc, la)
+			}
+		}
+	} else {
+		for _, sc := range otfScripts {
+			pair(sc, "")
+			for k := 0; k < 12; k++ {
+				pair(sc, vlib.Pick(r, otfLangs))
+			}
+		}
+		for _, la := range otfLangs {
+			for k := 0; k < 3; k++ {
+				pair(vlib.Pick(r, otfScripts), la)
+			}
+		}
+	}
+	for _, p := range [][2]string{{"zzzz", ""}, {"latn", "QQQ "}, {"", ""}, {"latn", "deu "}, {"LATN", "DEU "},
+		{"lao", ""}, {"lao ", "DEU"}, {"dflt", ""}, {"DFLT", "dflt"}, {"latn", "ENG"}} {
+		pair(p[0], p[1])
 	}
 	seen := map[string]bool{}
 	for _, langs := range [][]langEntry{macLangs, winLangs} {
